@@ -235,6 +235,7 @@ func init() {
 				l.Sample(map[string]any{"case": c.String(), "methods": ms, "commands": cmdStrings(cmds)})
 			}
 		})
+		c07Races(r)
 	})
 }
 
